@@ -174,6 +174,9 @@ class Hugr(Mapping[Node, NodeData], Generic[OpVarCov]):
         metadata: dict[str, Any] | None = None,
     ) -> Node:
         parent = parent.to_node() if parent else None
+        # look the parent up before taking an index: a deleted parent is refused
+        # (KeyError) without leaving a half-added node behind
+        parent_data = self[parent] if parent else None
         node_data = NodeData(op, parent, metadata=metadata or {})
 
         if self._free_nodes:
@@ -183,8 +186,8 @@ class Hugr(Mapping[Node, NodeData], Generic[OpVarCov]):
             node = Node(len(self._nodes), {})
             self._nodes.append(node_data)
         node = replace(node, _num_out_ports=num_outs, _metadata=node_data.metadata)
-        if parent:
-            self[parent].children.append(node)
+        if parent_data is not None:
+            parent_data.children.append(node)
 
         self._update_node_outs(node, num_outs)
         return node
@@ -354,14 +357,17 @@ class Hugr(Mapping[Node, NodeData], Generic[OpVarCov]):
             >>> list(df.hugr.linked_ports(df.input_node[0]))
             [InPort(Node(2), 0)]
         """
+        # both endpoints must be live nodes: a deleted node is refused (KeyError)
+        # before the link is stored
+        src_data, dst_data = self[src.node], self[dst.node]
         src_sub = self._unused_sub_offset(src)
         dst_sub = self._unused_sub_offset(dst)
         # if self._links.get_left(dst_sub) is not None:
         #     dst = replace(dst, _sub_offset=dst._sub_offset + 1)
         self._links.insert_left(src_sub, dst_sub)
 
-        self[src.node]._num_outs = max(self[src.node]._num_outs, src.offset + 1)
-        self[dst.node]._num_inps = max(self[dst.node]._num_inps, dst.offset + 1)
+        src_data._num_outs = max(src_data._num_outs, src.offset + 1)
+        dst_data._num_inps = max(dst_data._num_inps, dst.offset + 1)
 
     def add_order_link(self, src: ToNode, dst: ToNode) -> None:
         """Add a state order link between two nodes.
